@@ -306,6 +306,10 @@ func (w *World) ReadView(name string) (storage.ReadBucket, error) {
 		return storage.MapReadBucket(storage.MultiReadBucket(b1, b2), storage.MapOnPrefix("a")), nil
 	case "f_multi":
 		return storage.FilterReadBucket(storage.OverlayReadBucket(b2, b1), ext(".proto")), nil
+	case "ov_multi":
+		return storage.OverlayReadBucket(storage.MultiReadBucket(b1, b2), storage.MapReadBucket(b1, storage.MapOnPrefix("b"))), nil
+	case "multi_ov":
+		return storage.MultiReadBucket(storage.OverlayReadBucket(b1, b2), storage.MapReadBucket(b2, storage.MapOnPrefix("a"))), nil
 	case "strip":
 		return storage.StripReadBucketExternalPaths(b1), nil
 	case "strip_map":
